@@ -110,6 +110,26 @@ fn install_sink() -> Arc<Mutex<Vec<Value>>> {
 
 pub fn main(args: &[String]) {
     silence_panics();
+    if args[0] == "replay" {
+        // qv rrl replay <histories> <out> <ticks-per-second> <rate> <window>: one session per TLC-generated history
+        // of MC_Rrl (First(g) / Request(g): a gap of g ticks, then a request on the one stream)
+        let text = std::fs::read_to_string(&args[1]).expect("cannot read histories");
+        let mut out = Out::create(&args[2]);
+        let k: u64 = args[3].parse().unwrap();
+        let rate: u32 = args[4].parse().unwrap();
+        let window: u32 = args[5].parse().unwrap();
+        let cat = catalog();
+        let log = install_sink();
+        let mut r = StdRng::seed_from_u64(7);
+        for line in text.lines().filter(|l| !l.trim().is_empty()) {
+            let h: Vec<Value> = serde_json::from_str(line).expect("bad history line");
+            let gaps: Vec<u64> = h.iter().map(|op| op.as_array().unwrap()[1].as_u64().unwrap()).collect();
+            replay_session(&mut r, &cat, &log, &mut out, &gaps, k, rate, window);
+        }
+        verif::set_sink(None);
+        eprintln!("{} records", out.finish());
+        return;
+    }
     let seed: u64 = args[1].parse().unwrap();
     let n: usize = args[2].parse().unwrap();
     let mut out = Out::create(&args[3]);
@@ -159,7 +179,7 @@ fn session(r: &mut StdRng, cat: &Arc<Cat>, log: &Arc<Mutex<Vec<Value>>>, out: &m
             if total_shift + d <= 2_000_000_000 {
                 total_shift += d;
                 server.verif_rrl_shift(Duration::from_secs(d));
-                out.emit(json!({"ev": "Shift", "secs": d}));
+                out.emit(json!({"ev": "Shift", "secs": d, "micros": 0}));
             }
         }
         if time_profile && r.gen_bool(0.012) {
@@ -210,6 +230,56 @@ fn session(r: &mut StdRng, cat: &Arc<Cat>, log: &Arc<Mutex<Vec<Value>>>, out: &m
         if panicked {
             break; // the bucket mutex is poisoned now: end the session
         }
+    }
+}
+
+fn replay_session(r: &mut StdRng, cat: &Arc<Cat>, log: &Arc<Mutex<Vec<Value>>>, out: &mut Out, gaps: &[u64], k: u64, rate: u32, window: u32) {
+    let slip = r.gen_range(0..2usize);
+    let mut params = RrlParams::new(rate, rate, rate, window).unwrap();
+    params.set_slip(slip);
+    let mut server = Server::new(cat.clone());
+    server.set_rrl_params(Some(params));
+    let plain = Server::new(cat.clone());
+    out.emit(json!({"ev": "Reset", "noerror": rate, "nxdomain": rate, "error": rate, "window": window, "slip": slip, "size": 65537, "p4": 24, "p6": 56}));
+    let start = Instant::now();
+    let src: IpAddr = Ipv4Addr::new(10, 1, 2, 3).into();
+    for g in gaps {
+        if *g > 0 {
+            let micros = g * 1_000_000 / k;
+            server.verif_rrl_shift(Duration::from_micros(micros));
+            out.emit(json!({"ev": "Shift", "secs": micros / 1_000_000, "micros": micros % 1_000_000}));
+        }
+        let mut m = vec![r.gen::<u8>(), r.gen::<u8>(), 0, 0, 0, 1, 0, 0, 0, 0, 0, 0];
+        m.extend_from_slice(&w("www.example.test."));
+        m.extend_from_slice(&[0, 1, 0, 1]);
+        log.lock().unwrap().clear();
+        let mut buf = vec![0u8; 65535];
+        let t0 = start.elapsed().as_micros() as u64;
+        let res = catch_unwind(AssertUnwindSafe(|| server.handle_message(&m, ReceivedInfo::new(src, Transport::Udp), &mut buf)));
+        let t1 = start.elapsed().as_micros() as u64;
+        let hook = log.lock().unwrap().clone();
+        let mut rec = match res {
+            Ok(Response::Single(n)) => json!({"out": "resp", "resp": buf[..n].to_vec()}),
+            Ok(Response::None) => json!({"out": "none", "resp": []}),
+            Err(_) => json!({"out": "panic", "resp": []}),
+        };
+        let mut buf2 = vec![0u8; 65535];
+        let direct = match plain.handle_message(&m, ReceivedInfo::new(src, Transport::Udp), &mut buf2) {
+            Response::Single(n) => buf2[..n].to_vec(),
+            Response::None => Vec::new(),
+        };
+        rec["ev"] = json!("Req");
+        rec["req"] = json!(m);
+        rec["t0"] = json!(t0);
+        rec["t1"] = json!(t1);
+        rec["transport"] = json!("udp");
+        rec["src"] = json!(src_octets(src));
+        rec["direct"] = json!(direct);
+        rec["stream"] = json!(w("www.example.test."));
+        rec["hook"] = json!(hook);
+        let panicked = rec["out"] == "panic";
+        out.emit(rec);
+        if panicked { break; }
     }
 }
 
